@@ -44,6 +44,10 @@ def cases(tier, seed, prep=None):
             for k in range(150, 520, 12 if q else 2):
                 out.append({"kind": "sweep", "seed": b + 100 + base, "close_at": k, "who": who, "stranger": False, "dead_addr": False,
                             "bulk": [100000, 300000, 1000000, 3000000][(k // 2) % 4]})
+    # the same after the Follower went through ABANDONING once (the Leader noticed an earlier loss first)
+    for i in range(40 if q else 1200):
+        out.append({"kind": "sweep", "seed": b + 200 + i, "close_at": 420 + (i * 7) % 200, "who": "follower", "stranger": False, "dead_addr": False,
+                    "bulk": [100000, 300000, 1000000, 3000000][i % 4], "pre_abandon": 150 + (i * 13) % 120})
     for i in range(60 if q else 2000):
         out.append({"kind": "oldpeer", "seed": b + 5000 + i})
     foreign = [{}, {"app_versions": {}}, {"abilities": []}, {"can-dilate": []}, {"can-dilate": ["x"]}, {"app_versions": {"k": 1}, "can-dilate": ["2", "x"]}]
@@ -116,12 +120,12 @@ def run_case(spec):
     drv.drain_actions = actions
     sch = Scheduler(world, drv, strategy=rng.choice(["random", "pct", "netfirst"]), chunking="whole")
     # 0-2 cuts of the selected link so that the reconnect states occur
-    for _ in range(rng.choice([0, 1, 1, 2]) if not spec.get("close_in_state") else 2):
+    for _ in range(rng.choice([0, 1, 1, 2]) if not (spec.get("close_in_state") or spec.get("bulk")) else 2):
         def cut():
             link = dp.selected_link()
             if link is not None:
                 # (with unsent bulk data a blackholed link ends only when TCP gives up, which SimNet does not model)
-                how = rng.choice(["both", "blackhole"]) if not spec.get("bulk") else "both"
+                how = rng.choice(["both", "blackhole"]) if not spec.get("bulk") else rng.choice(["both", "leader-first", "leader-first"])
                 if spec.get("close_in_state"):
                     how = rng.choice(["both", "leader-first", "leader-first"])
                 if how == "both":
@@ -138,6 +142,22 @@ def run_case(spec):
                 else:
                     r.blackhole(link)
         sch.faults.append((rng.randint(120, 480), cut, "fault L2"))
+    if spec.get("pre_abandon"):
+        def lead_first():
+            from twisted.internet import error
+            from twisted.python import failure
+            link = dp.selected_link()
+            if link is None or dp.leader() is None:
+                sch.faults.append((world.step + 10, lead_first, "leader-first loss (retry)"))
+                sch.faults.sort(key=lambda f: f[0])
+                return
+            r.blackhole(link)
+            for e in link.ends:
+                if dp.party_of(unwrap(e.protocol)) == dp.leader() and e.connected:
+                    e.outbuf.clear()
+                    e._connection_lost(failure.Failure(error.ConnectionLost()))
+        sch.faults = [f for f in sch.faults if f[2] != "fault L2"]
+        sch.faults.append((spec["pre_abandon"], lead_first, "leader-first loss"))
     # a silent stranger on the dilation listener
     stranger = {"proto": None}
     if spec.get("stranger"):
@@ -156,8 +176,14 @@ def run_case(spec):
         sch.faults.append((rng.randint(20, 200), stranger_connect, "stranger"))
     who = spec["who"]
     info = {}
+    if who == "follower":
+        who = "A"       # decided when close() is issued (roles are not known before the key exchange)
 
     def do_close():
+        nonlocal who, app
+        if spec["who"] == "follower" and dp.leader() is not None:
+            who = "B" if dp.leader() == "A" else "A"
+            app = dp.apps[who]
         m = dp.manager(who)
         info["manager_state"] = dp.mstate(who)
         info["connector_state"] = state_of(m._connector) if m is not None and getattr(m, "_connector", None) is not None else None
